@@ -245,9 +245,9 @@ def run(tier, seed):
                     chk.fail(f"{f}|dropped:{p}", f"the handler of {f} accepts but can never forward numpy parameter {p}",
                              {"python": "import sys\n" f"sys.path.insert(0, {HARNESS!r})\n"
                                         "import c06_trace as TR, npcatalog as C, unyt._array_functions as AF, numpy as np, inspect\n"
-                                        f"h = AF._HANDLED_FUNCTIONS[{_expr(f)}]\nparams, never, targets, ro = TR.handler_static(h)\n"
-                                        "print('handler parameters never read:', never)\n"
-                                        "assert not [p for p, k in params if k.startswith('VAR_') and p in never]\n"})
+                                        f"f = {_expr(f)}\nh = AF._HANDLED_FUNCTIONS[f]\nd = TR.static_dropped(f, h)\n"
+                                        "print('numpy parameters the handler can never forward:', d)\n"
+                                        f"assert {p!r} not in d\n"})
 
     # ------------------------------------------------------------ forwarding pass (O2 + correspondence)
     nfs = 1 if tier == "quick" else 3
